@@ -1,0 +1,63 @@
+//! Verification hooks (feature `rscel_verif`, off by default).
+//!
+//! When a sink is installed on the current thread the VM reports, for every
+//! block it runs, the block entry, `(pc, operand stack height)` before each
+//! instruction and the stack height at block exit. Nothing is recorded and
+//! nothing else changes when no sink is installed.
+use std::cell::RefCell;
+
+use crate::types::CelByteCode;
+
+#[derive(Debug, Clone, PartialEq)]
+pub enum VmEvent {
+    /// A block starts executing; `block` is its address, `code` its listing.
+    Enter { block: usize, code: String },
+    /// About to execute the instruction at `pc` with `height` operands on the stack.
+    Step { block: usize, pc: usize, height: usize },
+    /// The block ran off its end with `height` operands on the stack.
+    Exit { block: usize, height: usize },
+}
+
+thread_local! {
+    static SINK: RefCell<Option<Vec<VmEvent>>> = const { RefCell::new(None) };
+}
+
+/// Install an empty sink on this thread (drops any previous one).
+pub fn start_trace() {
+    SINK.with(|s| *s.borrow_mut() = Some(Vec::new()));
+}
+
+/// Remove the sink of this thread and return what it recorded.
+pub fn take_trace() -> Vec<VmEvent> {
+    SINK.with(|s| s.borrow_mut().take().unwrap_or_default())
+}
+
+fn emit<F: FnOnce() -> VmEvent>(f: F) {
+    SINK.with(|s| {
+        if let Some(v) = s.borrow_mut().as_mut() {
+            v.push(f());
+        }
+    });
+}
+
+pub(crate) fn enter(prog: &CelByteCode) {
+    emit(|| VmEvent::Enter {
+        block: prog as *const CelByteCode as usize,
+        code: format!("{:?}", prog),
+    });
+}
+
+pub(crate) fn step(prog: &CelByteCode, pc: usize, height: usize) {
+    emit(|| VmEvent::Step {
+        block: prog as *const CelByteCode as usize,
+        pc,
+        height,
+    });
+}
+
+pub(crate) fn exit(prog: &CelByteCode, height: usize) {
+    emit(|| VmEvent::Exit {
+        block: prog as *const CelByteCode as usize,
+        height,
+    });
+}
